@@ -825,9 +825,48 @@ func (se *specEnv) callPureVals(pf *PureFn, args []specVal) specVal {
 		n.pkg = p
 	}
 	for i, name := range pf.Params {
-		n.vars[name] = args[i]
+		a := args[i]
+		// a quantified reference used where the pure function expects a pointer
+		if t, isTerm := a.V.(Term); isTerm && a.Addr == nil && i < len(pf.PTypes) && strings.HasPrefix(pf.PTypes[i], "*") {
+			if dt := n.resolveType(pf.PTypes[i]); dt != nil {
+				a = specVal{V: &PtrV{Obj: t, Root: deref(dt)}, T: dt}
+			}
+		}
+		n.vars[name] = a
 	}
 	return n.evalRV(pf.Body.Expr)
+}
+
+// resolveType resolves a type written in a pure function header ("*segment", "uint64", "log.Log").
+func (se *specEnv) resolveType(ts string) types.Type {
+	ts = strings.TrimSpace(ts)
+	if strings.HasPrefix(ts, "*") {
+		if el := se.resolveType(ts[1:]); el != nil {
+			return types.NewPointer(el)
+		}
+		return nil
+	}
+	if obj := types.Universe.Lookup(ts); obj != nil {
+		if tn, ok := obj.(*types.TypeName); ok {
+			return tn.Type()
+		}
+	}
+	if i := strings.Index(ts, "."); i > 0 {
+		for _, p := range se.x.e.allPackages() {
+			if p.Name() == ts[:i] {
+				if tn, ok := p.Scope().Lookup(ts[i+1:]).(*types.TypeName); ok {
+					return tn.Type()
+				}
+			}
+		}
+		return nil
+	}
+	if se.pkg != nil {
+		if tn, ok := se.pkg.Scope().Lookup(ts).(*types.TypeName); ok {
+			return tn.Type()
+		}
+	}
+	return nil
 }
 
 func (se *specEnv) quant(n *ast.CallExpr, universal, ranged bool) specVal {
